@@ -105,6 +105,16 @@ def functions_defined(text):
     return set(re.findall(r"^\s*(?:\[\[[^\]]*\]\]\s*)*[\w:<>,\s\*&]+?\b(\w+)\s*\([^;{]*\)\s*(?::\s*\w+\s*)?\{", text, re.M))
 
 
+RENAMED = ["vector", "matrix", "fragment", "device", "constant", "thread", "kernel", "vertex"]
+
+
+def _gname(entry, i, decl_word):
+    """the declared name of global i (harness/src/c05.rs gname)"""
+    if entry.endswith("+R") and i < len(RENAMED) and decl_word.startswith("o:"):
+        return RENAMED[i]
+    return "g%d" % i
+
+
 def _program_tg(entry, kind, tg):
     """the numthreads the generated program gives the stage (harness/src/c05.rs render)"""
     if entry == "TASKMESH" and kind == "Mesh":
@@ -218,7 +228,7 @@ def check(case, impl):
             if is_main and mode != "nopipe":
                 reach = uses | huses
                 for i, dw in enumerate(decl_words):
-                    nm = "g%d" % i
+                    nm = _gname(entry, i, dw)
                     if nm in by_name:
                         if (i in reach) != by_name[nm]["used"]:
                             return "%s is %s by the entry point but reported is_used=%s" % (nm, "reached" if i in reach else "not reached", by_name[nm]["used"])
